@@ -73,13 +73,12 @@ Theorem C11_tree_prefix_verbatim :
   verbatim_list (firstn c items) = Some (firstn c olds).
 Proof. exact tree_prefix_verbatim. Qed.
 
-(* dict entries are matched by key: an equal entry under a surviving key keeps its source text, wherever other entries are inserted or deleted *)
+(* dict entries are matched by key: an entry whose value did not change keeps its source text (nested containers and hand-written leaves
+   included), wherever other entries are inserted or deleted *)
 Theorem C11_dict_equal_entry_verbatim :
-  forall (F : flags) (olds : list entry) (news : list (Z * Z)) (e : entry),
-  f_update F = false ->
-  In e olds ->
-  lookup_new (e_key e) news = Some (l_val (e_leaf e)) ->
-  In (DKeep (e_key e) (e_leaf e)) (dict_result F olds news).
+  forall (F : flags) (olds : list entry) (news : list (Z * val)) (e : entry) (v : val),
+  f_update F = false -> In e olds -> lookup_new (e_key e) news = Some v -> elt_eqb (e_val e) v = true ->
+  exists r : rtree, In (e_key e, r) (dict_result F olds news) /\ verbatim r = Some (e_val e).
 Proof. exact dict_equal_entry_verbatim. Qed.
 
 (* keyword arguments are matched by name: an argument whose value did not change keeps its source text (at any nesting depth of the value) *)
